@@ -168,14 +168,19 @@ func main() {
 					if d == 0 && where != "operation" {
 						continue
 					}
-					dc := DeadlineCase{"deadline", t, d, where}
-					cl, what := checkDeadline(dc)
-					r.Eval(1)
-					r.Nontrivial(1)
-					if cl != "" {
-						r.Fail(cl, what, dc)
-					} else {
-						r.Outcome("deadline:"+what, 1)
+					for _, def := range []int{0, 3600000, 5400000} {
+						if def != 0 && t >= 0 && where != "operation" {
+							continue // the package default only matters to calls that set no timeout; a few crossings suffice
+						}
+						dc := DeadlineCase{"deadline", t, d, where, def}
+						cl, what := checkDeadline(dc)
+						r.Eval(1)
+						r.Nontrivial(1)
+						if cl != "" {
+							r.Fail(cl, what, dc)
+						} else {
+							r.Outcome("deadline:"+what, 1)
+						}
 					}
 				}
 			}
